@@ -27,7 +27,8 @@
 #include <vector>
 
 extern "C" void rd_ignore(int) __attribute__((weak));
-extern "C" void rd_atomic_yield(int) __attribute__((weak));   // race detector (if linked): atomic operations become scheduling points   // race detector (if linked): logging is not program behaviour
+extern "C" void rd_atomic_yield(int) __attribute__((weak));
+extern "C" void rd_access_yield(int, unsigned) __attribute__((weak));   // ... and plain accesses, with a given probability   // race detector (if linked): atomic operations become scheduling points   // race detector (if linked): logging is not program behaviour
 
 namespace hr {
 
